@@ -616,7 +616,8 @@ def knownFindingKeys : List String := [
   "shared-_name:multified_wrappers.py:AllOf.__set__",
   "shared-_name:multified_wrappers.py:AnyOf.__set__",
   "shared-_name:multified_wrappers.py:OneOf.__set__",
-  "shared-_name:multified_wrappers.py:NotField.__set__"
+  "shared-_name:multified_wrappers.py:NotField.__set__",
+  "shared-_name:multified_wrappers.py:AnyOf.serialize"
 ]
 
 /-- does the current working tree still have a racy validator site?  (`false` ⇒ `no_racy_site_linearizable` applies to
